@@ -36,7 +36,7 @@ BAD = ['text_bytes', 'binary_str', 'ping_str', 'pong_str', 'ping_long',
 
 
 def plan(tier):
-    return [('seeded', 3000 if tier == 'quick' else 150000),
+    return [('seeded', 10000 if tier == 'quick' else 150000),
             ('boundary', 64 if tier == 'quick' else 640)]
 
 
